@@ -96,7 +96,7 @@ CtxReplyOk(m, e, r) ==
     /\ e.ctx.gas_used = r.gas_used
     /\ e.ctx.height = r.env.height /\ e.ctx.contract = r.env.contract /\ e.ctx.token = r.env.token
     /\ e.ctx.events = (IF m.on = "success" THEN EvTypes(r.events) ELSE <<>>)
-    /\ e.ctx.msg_responses = 0
+    /\ e.ctx.msg_responses = (IF m.on = "success" THEN r.msgresp ELSE 0)
 TrReplyHandler ==
     /\ IsEvent("ReplyHandler") /\ st \in {"replied", "handled"}
     /\ Chk("C07", "a_reply_runs_at_most_one_handler", l, st = "replied")
